@@ -16,8 +16,10 @@ struct Opts
    std::string victimHost, victimId;    // spliced into the clause table as "VH" / "VI"
    bool allowRawRegex;                  // known finding F19: raw regexes reach regcomp unvetted; stacked repetition is exponential (lifts the exclusion: the last clause form becomes the bomb)
    uint32 * pathsAddressingVictim;      // counted when a generated path names the victim's host or id literally or by wildcard at both levels
+   std::string ownRoot;                 // C06: the sender's own root path; now and then a fully-qualified path begins with these very characters and then goes on ("/h1/17" + "0/x"): a neighbour's address that a careless prefix test takes for one's own
+   uint32 * pathsBesideOwnRoot;
    bool aimAtVictim;                    // C06: a third of the paths are built as /<victim host|*>/<victim id|*>/<clauses from the victim's vocabulary> (costs one extra byte per path, so C07 leaves it off)
-   Opts() : allowRawRegex(false), pathsAddressingVictim(NULL), aimAtVictim(false) {}
+   Opts() : allowRawRegex(false), pathsAddressingVictim(NULL), pathsBesideOwnRoot(NULL), aimAtVictim(false) {}
 };
 
 static const char * const CLAUSES[] = {"a", "b", "c", "*", "a*", "?", "[ab]", "(a|b)", "a,b", "~a", "<0-5>", "I0", "I1", "\\*", "", "..", "o", "0", "1", "2", "*/*", "x\\", "VH", "VI", "`", "~`", "~zz", "`a.*", "`(a|b)+c"};
@@ -28,7 +30,9 @@ inline String GenPath(vf::BS & bs, const Opts & o)
    if ((o.aimAtVictim)&&(bs.u8()%3 == 0))
    {
       static const char * const VOC[] = {"a", "b", "o", "c", "I0", "I1", "*", "a*", "?", "[ab]", "(a|b)", "a,b,o", "~zz", "<0-5>", "I*", ".."};
-      const uint8_t k = bs.u8(); String r = "/"; r += (k&1) ? "*" : o.victimHost.c_str(); r += '/'; r += (k&2) ? "*" : (k&4) ? (o.victimId+"*").c_str() : o.victimId.c_str();
+      const uint8_t k = bs.u8();
+      if ((o.ownRoot.size())&&((k>>3)%8 == 7)) {static const char * const SUF[] = {"0/x", "z/a", "1", "00/a/b", "0", "9/I0", "a", "0/a"}; String r2 = o.ownRoot.c_str(); r2 += SUF[k&7]; if (o.pathsBesideOwnRoot) (*o.pathsBesideOwnRoot)++; return r2;}
+      String r = "/"; r += (k&1) ? "*" : o.victimHost.c_str(); r += '/'; r += (k&2) ? "*" : (k&4) ? (o.victimId+"*").c_str() : o.victimId.c_str();
       const uint32 n = 1+(k>>3)%3; for (uint32 i=0; i<n; i++) {r += '/'; r += VOC[bs.u8()%16];}
       if (o.pathsAddressingVictim) (*o.pathsAddressingVictim)++;
       return r;
